@@ -65,7 +65,8 @@ func domainCheck(v any, path string) string {
 	return fmt.Sprintf("%s: value of type %T is not a plain JSON value", path, v)
 }
 
-var c18Panel = []string{"@", "type(@)", "@ == @", "[@][0]", "{k: @}.k", "to_array(@)", "length(to_array(@))", "@[0]", "@[-1]", "@[*]", "@[]", "@.*", "keys(@)", "values(@)", "sort(@)", "sort_by(@, &to_string(@))", "reverse(@)", "length(@)", "to_number(@)", "to_string(@)", "@ + `1`", "@ * `2`", "-@", "abs(@)", "@ < `2`", "@ == `1`", "@ == `[]`", "@ == `{}`", "!@", "@ && 'T'", "@ || 'F'", "[?@]", "[?@ == `1`]", "sum(@)", "max(@)", "min(@)", "avg(@)", "join(',', @)", "@[0].a", "@.a", "@[*].a", "@[?a].a", "contains(@, `1`)", "not_null(@, 'N')", "merge(@, `{\"zz\":1}`)", "@[::2]", "map(&type(@), @)", "zip(@, @)", "@[0] == @[1]", "group_by(@, &type(@))", "items(@)", "from_items(items(@))", "[@, @][]", "ceil(@)", "floor(@)", "find_first(@, 'a')", "pad_left(@, `3`)", "split(@, 'a')", "let $v = @ in [$v, $v]"}
+var c18Panel = []string{"@", "type(@)", "@ == @", "[@][0]", "{k: @}.k", "to_array(@)", "length(to_array(@))", "@[0]", "@[-1]", "@[*]", "@[]", "@.*", "keys(@)", "values(@)", "sort(@)", "sort_by(@, &to_string(@))", "reverse(@)", "length(@)", "to_number(@)", "to_string(@)", "@ + `1`", "@ * `2`", "-@", "abs(@)", "@ < `2`", "@ == `1`", "@ == `[]`", "@ == `{}`", "!@", "@ && 'T'", "@ || 'F'", "[?@]", "[?@ == `1`]", "sum(@)", "max(@)", "min(@)", "avg(@)", "join(',', @)", "@[0].a", "@.a", "@[*].a", "@[?a].a", "contains(@, `1`)", "not_null(@, 'N')", "merge(@, `{\"zz\":1}`)", "@[::2]", "map(&type(@), @)", "zip(@, @)", "@[0] == @[1]", "group_by(@, &type(@))", "items(@)", "from_items(items(@))", "[@, @][]", "ceil(@)", "floor(@)", "find_first(@, 'a')", "pad_left(@, `3`)", "split(@, 'a')", "let $v = @ in [$v, $v]",
+	"a.to_array(@)", "a.type(@)", "a[0].not_null(@, 'x')", "(a | to_string(@))", "a.length(to_array(@))", "a.b.type(@)", "[0].type(@)", "a.[@]", "a.{k: @}", "a | [@]", "a.not_null(@, `1`)", "@.type(@)", "a.b | type(@)", "[a.type(@), type(a)]"}
 
 func c18Run(c *Ctx, idx int) {
 	r := c.Rand("")
@@ -151,13 +152,47 @@ func c18Run(c *Ctx, idx int) {
 	}
 }
 
+// extremes: arithmetic near the ends of each numeric representation must give
+// an error or a finite number, never an infinity/NaN value
+func c18Extremes(c *Ctx, idx int) {
+	r := c.Rand("")
+	f64 := []any{1e308, -1e308, math.MaxFloat64, 1e-300, -1e-300, math.SmallestNonzeroFloat64, 1e200, 1e-200, float64(3), float64(0), 2.5e307}
+	f32 := []any{float32(3e38), float32(-3e38), float32(math.MaxFloat32), float32(1e-38), float32(1e-45), float32(2), float32(0)}
+	dec := []any{decimal128.MustParse("9e6144"), decimal128.MustParse("-9e6144"), decimal128.MustParse("1e-6143"), decimal128.MustParse("1e6100"), decimal128.MustParse("3"), decimal128.MustParse("0")}
+	jn := []any{json.Number("9e6144"), json.Number("1e-6143"), json.Number("1e6100"), json.Number("3"), json.Number("0"), json.Number("1e400"), json.Number("1e-400")}
+	pools := [][]any{f64, f32, dec, jn, append(append([]any{}, f64...), f32...)}
+	pool := pools[idx%len(pools)]
+	a, b := gen.Pick(r, pool), gen.Pick(r, pool)
+	data := map[string]any{"a": a, "b": b, "xs": []any{a, b, a}}
+	forms := []string{"a / b", "a * b", "a + b", "a - b", "a // b", "a % b", "-a", "abs(a)", "[a / b]", "{k: a * b}", "sum(xs)", "avg(xs)", "a * a * a", "a / b / b", "max(xs) * min(xs)", "map(&(@ * a), xs)", "xs[?@ / b > `1`]", "ceil(a / b)", "floor(a * b)", "to_number(to_string(a)) * b", "let $v = a * b in $v", "not_null(a / b)", "a * b == a * b"}
+	for _, f := range forms {
+		l := c.LibSearch(f, data)
+		c.Nontrivial(f, gen.Describe(data))
+		if l.Panic != nil {
+			c.Report(Violation{Rule: "C18/panic", Expr: f, Data: gen.Describe(data), Got: ShowOut(l)})
+			continue
+		}
+		if l.Err != nil {
+			continue
+		}
+		if s := domainCheck(l.Res, "result"); s != "" {
+			c.Report(Violation{Rule: "C18/domain", Expr: f, Data: gen.Describe(data), Got: gen.Describe(l.Res), Detail: s})
+			continue
+		}
+		if _, err := json.Marshal(l.Res); err != nil {
+			c.Report(Violation{Rule: "C18/marshal", Expr: f, Data: gen.Describe(data), Got: gen.Describe(l.Res), Detail: err.Error()})
+		}
+	}
+}
+
 func init() {
 	Register(&Property{
 		ID:            "C18",
-		Rule:          "seeded (e1, document) pairs with e1 weighted towards functions and operators that construct values (length, find_*, arithmetic, keys, items, zip, group_by, split, to_array, map, sum, avg, literals): the result r1 is walked (only nil/bool/string/[]any/map[string]any/supported numeric kinds, no typed nils, no non-finite numbers), serialised with encoding/json and decoded again (structural view and JSON view must agree), and then re-queried with 6 of 59 inspecting expressions e2 (types, equality, sorting, indexing, arithmetic, string functions; none mentions $ or outer variables): Search(e2, r1) and Search(e2, JSON round trip of r1) must equal Search(\"(e1) | e2\", document); non-trivial = at least one e2 yields a non-null value; distinct by (e1, document)",
+		Rule:          "seeded (e1, document) pairs with e1 weighted towards functions and operators that construct values (length, find_*, arithmetic, keys, items, zip, group_by, split, to_array, map, sum, avg, literals): the result r1 is walked (only nil/bool/string/[]any/map[string]any/supported numeric kinds, no typed nils, no non-finite numbers), serialised with encoding/json and decoded again (structural view and JSON view must agree), and then re-queried with 6 of 59 inspecting expressions e2 (types, equality, sorting, indexing, arithmetic, string functions; none mentions $ or outer variables): Search(e2, r1) and Search(e2, JSON round trip of r1) must equal Search(\"(e1) | e2\", document); extremes stream: 23 arithmetic forms over operands near the ends of float64, float32, decimal128 and json.Number must return an error or finite, serialisable numbers; non-trivial = at least one e2 yields a non-null value; distinct by (e1, document)",
 		MinNontrivial: 2000,
 		Streams: []Stream{
 			{Name: "requery", N: func(c *Ctx) int { return tierN(c, 20000, 300000) }, Run: c18Run},
+			{Name: "extremes", N: func(c *Ctx) int { return tierN(c, 3000, 60000) }, Run: c18Extremes},
 		},
 	})
 }
